@@ -101,6 +101,7 @@ def parser_rules(ret_stmt, nret, whole):
         Rule(r'\bdata\.append\(1, ([^;]+)\);', r'out_push_back(data, \1);', regex=True, count='+'),
         Rule(r'\bdata\.size\(\)', 'out_size(data)', regex=True, count=2),
         Rule(r'\bstrtoull\(', 'C09_strtoull(', regex=True, count=None),
+        Rule(r'\bstrto(?:ll|l|ul)\(', 'C09_strtoll(', regex=True, count=None),
         Rule(r'\bstrtod\(', 'C09_strtod(', regex=True, count=None),
         Rule(r'\bstrtof\(', 'C09_strtof(', regex=True, count=None),
         FloatSwapOverloads(),
